@@ -26,11 +26,13 @@ import (
 
 	"github.com/kardiachain/go-kardia/lib/crypto"
 
+	"verif/mc/explore"
 	"verif/mc/par"
 	"verif/mc/report"
 )
 
 var r *report.Run
+var deadlineAt time.Time
 var stopProf = func() {}
 
 var keyHex = []string{
@@ -51,6 +53,7 @@ type caseSpec struct {
 	Chunk       *chunkSpec   `json:"chunk,omitempty"`
 	Merge       *mergeSpec   `json:"merge,omitempty"`
 	Free        *freeSpec    `json:"free,omitempty"`
+	Ilv         *ilvSpec     `json:"interleaving,omitempty"`
 	Mconn       *mconnSpec   `json:"mconn,omitempty"`
 }
 
@@ -175,6 +178,8 @@ func runCase(c caseSpec) (fs []finding) {
 			fs, _ = runFree(pr, *c.Free)
 		}
 		fs = append(hf, fs...)
+	case "interleave":
+		fs = replayIlv(*c.Ilv)
 	case "mconn":
 		fs, _ = runMconn(*c.Mconn)
 	default:
@@ -294,6 +299,7 @@ func main() {
 		}
 	}
 	r.SetDeadline(budget)
+	deadlineAt = time.Now().Add(budget)
 
 	if racePass {
 		racePassMain()
@@ -641,10 +647,131 @@ func phaseStreams() {
 	}, closePair)
 	finishPhase("two-writer-merges", done, n, t0)
 
+	// ---- controlled interleavings of two writers (the premise of the merges, explored)
+	phaseInterleave()
+
 	// ---- free-running writers (the -race pass runs this body alone)
 	t0 = time.Now()
 	done = runFreePhase(freeIters)
 	finishPhase("free-running-writers", done, int64(freeIters), t0)
+}
+
+// replayIlv re-executes one recorded schedule on a fresh pair.
+func replayIlv(sp ilvSpec) (fs []finding) {
+	pr, hf := newCleanPair(keys[0], keys[1])
+	if pr == nil {
+		return hf
+	}
+	defer pr.close()
+	pr.syncMode(false)
+	ex := &explore.Explorer{Bound: 1 << 20, NoPrune: true}
+	ex.Body = func(c *explore.Ctx) { fs, _ = runIlv(pr, sp, c) }
+	ex.OnPanic = func(_ *explore.Ctx, p interface{}) {
+		fs = []finding{{sig("two-writers:controlled-interleaving", "replay-diverged"), fmt.Sprint(p)}}
+	}
+	ex.RunOne(sp.Choices)
+	return append(hf, fs...)
+}
+
+func phaseInterleave() {
+	t0 := time.Now()
+	bound := 2
+	specs := ilvScenarios(2, ilvSizes)
+	if r.Thorough() {
+		bound = 3
+		specs = ilvScenarios(3, ilvSizes)
+	} else {
+		// quick: 3-call lists over a reduced size set on top of all lists of <= 2 calls
+		seen := map[string]bool{}
+		for _, sp := range specs {
+			seen[fmt.Sprint(sp.W)] = true
+		}
+		for _, sp := range ilvScenarios(3, []int{1, 3000}) {
+			if !seen[fmt.Sprint(sp.W)] {
+				specs = append(specs, sp)
+			}
+		}
+	}
+	if r.Thorough() {
+		both := make([]ilvSpec, 0, 2*len(specs))
+		for _, sp := range specs {
+			a, b := sp, sp
+			b.Dir = 1
+			both = append(both, a, b)
+		}
+		specs = both
+	} else {
+		for i := range specs {
+			specs[i].Dir = i % 2
+		}
+	}
+	for i := range specs {
+		specs[i].Bound = bound
+	}
+	r.Set("ilv_preemption_bound", bound)
+	done := pool(int64(len(specs)), freshPair, func(ctx interface{}, i int64) interface{} {
+		pr, _ := ctx.(*pair)
+		sp := specs[i]
+		orders := map[string]bool{}
+		ex := &explore.Explorer{Bound: bound, Workers: 1, NoPrune: true, Deadline: deadlineAt}
+		ex.OnPanic = func(_ *explore.Ctx, p interface{}) {
+			fmt.Printf("MACHINERY-ERROR property=C20 controlled interleaving %v: %v\n", sp.W, p)
+			os.Exit(3)
+		}
+		ex.Body = func(c *explore.Ctx) {
+			if pr == nil {
+				x := freshPair()
+				if x == nil {
+					return
+				}
+				pr = x.(*pair)
+			}
+			fs, obs := runIlv(pr, sp, c)
+			tick()
+			r.Add("evaluations", 1)
+			r.Add("ilv_executions", 1)
+			r.Add("ilv_choice_points", int64(obs.points))
+			run := obs.run
+			r.Add("ilv_goroutine_state_snapshots", int64(run.polls))
+			r.Add("ilv_quiescent_points_with_a_writer_blocked_in_the_code_under_test", int64(run.blockedSeen))
+			r.Max("ilv_max_preemptions_in_one_execution", int64(run.preemptions))
+			if run.startedWhileOtherInside > 0 {
+				r.Add("ilv_executions_with_a_writer_started_while_the_other_was_parked_inside_write", 1)
+			}
+			c.Outcome = obs.order
+			if obs.order != "" {
+				orders[obs.order] = true
+				r.Distinct("ilv_distinct_payload_orders", obs.order)
+				r.Distinct("ilv_distinct_wire_orders", obs.wire)
+				nontrivial.add("ilv|" + ilvKey(sp) + "|" + obs.wire + "|" + obs.order)
+			}
+			if len(fs) > 0 {
+				sc := sp
+				sc.Choices = c.Choices()
+				reportFindings(caseSpec{Phase: "interleave", Ilv: &sc}, fs)
+			}
+			if !obs.pairHealthy {
+				pr.close()
+				pr = nil
+			}
+		}
+		st := ex.Explore()
+		r.Add("ilv_scenarios", 1)
+		if len(orders) > 1 {
+			r.Add("ilv_scenarios_with_more_than_one_payload_order", 1)
+		}
+		if !st.Completed {
+			r.NotExhaustive(fmt.Sprintf("controlled interleavings of %v stopped at the deadline", sp.W))
+		}
+		if i == 3 || i == int64(len(specs))-1 {
+			r.Sample(map[string]interface{}{"phase": "interleave", "case": sp, "executions": st.Executions, "distinct_payload_orders": len(orders)})
+		}
+		if pr == nil {
+			return nil
+		}
+		return pr
+	}, closePair)
+	finishPhase("two-writer-interleavings", done, int64(len(specs)), t0)
 }
 
 func runFreePhase(iters int) int64 {
